@@ -900,6 +900,24 @@ def context_wiring(mod, bad, stats):
             if v.attr not in passigned:
                 bad('WIRE-super', f'{mod.label}: `_ctx.{a} = _super_ctx.{v.attr}`: the parent context has no '
                                   f'{v.attr} (it has {sorted(passigned)})')
+    # what the sub-grammar defines itself is not re-imported from an ancestor: the import (placed after
+    # the definitions) would rebind the overriding rule / class to the ancestor's object
+    if mod.sub:
+        own = set()
+        for n in mod.tree.body:
+            if isinstance(n, (ast.FunctionDef, ast.ClassDef)):
+                own.add(n.name)
+            elif isinstance(n, ast.Assign):
+                own |= {t.id for t in n.targets if isinstance(t, ast.Name)}
+        for n in mod.tree.body:
+            if isinstance(n, ast.ImportFrom):
+                for a in n.names:
+                    nm = a.asname or a.name
+                    if nm in own and nm not in runtime_defs(True) and nm != '_super_ctx':
+                        bad('WIRE-import-shadow', f'{mod.label}: `{nm}` is defined by this sub-grammar and also imported '
+                                                  f'from {n.module}: in the module namespace the ancestor\'s object '
+                                                  f'replaces the overriding one ({nm}.parse and the class built by '
+                                                  f'_try_{nm} are the ancestor\'s)')
     # no store through the parent's context, nor through any object imported from an ancestor
     # (inherited rules and classes are the ancestor's own objects, shared by reference)
     imported = set()
